@@ -126,7 +126,8 @@ impl<V> CacheEntry<V> {
         Self {
             value,
             created_at: now,
-            expires_at: Some(now + ttl),
+            // A TTL too large to be added to the clock (Duration::MAX) never expires
+            expires_at: now.checked_add(ttl),
             size_bytes,
         }
     }
